@@ -39,6 +39,13 @@ class checkpoint(Flow):
             print('using checkpoint data from {}'.format(self.checkpoint_path))
             return unstream(self.filename),
         else:
+            chain = tuple(self.chain)
+            if len(chain) == 0:
+                # nothing to compute the checkpoint from (e.g. a flow that only reads it, run
+                # before - or after an interrupted run of - the flow that writes it)
+                raise FileNotFoundError(
+                    'checkpoint {} does not exist and there are no steps to create it from'.format(self.checkpoint_path))
+            self.chain = chain
             print('saving checkpoint to: {}'.format(self.checkpoint_path))
             return itertools.chain(self.chain, (stream(self.filename),
                                                 _notify_checkpoint_saved(self.checkpoint_name)))
